@@ -89,6 +89,54 @@ func TestVsReplayC18(t *testing.T) {
 		} else {
 			fmt.Println("VSREPLAY-NOT-REPRODUCED: derived child equals BIP32")
 		}
+	case m.Harness == "text_roundtrip":
+		k := NewExtendedKey([]byte{0x04, 0x88, 0xad, 0xe4}, append([]byte{}, key...), cc, []byte{1, 2, 3, 4}, depth, uint32(m.u("childnum")), true)
+		if len(key) == 0 {
+			fmt.Println("VSREPLAY-NOT-REPRODUCED: public-key case has no native driver")
+			return
+		}
+		txt := k.String()
+		back, err := NewKeyFromString(txt)
+		fmt.Printf("private key (%d bytes) %x -> %q\n", len(key), key, txt)
+		if err != nil {
+			fmt.Println("VSREPLAY-CONFIRMED: NewKeyFromString(k.String()) fails:", err)
+			return
+		}
+		if new(big.Int).SetBytes(back.key).Cmp(new(big.Int).SetBytes(key)) != 0 || !bytes.Equal(back.chainCode, cc) || back.depth != depth {
+			fmt.Println("VSREPLAY-CONFIRMED: text round trip changed the key")
+			return
+		}
+		fmt.Println("VSREPLAY-NOT-REPRODUCED: text round trip preserved the key")
+	case m.Harness == "child_public":
+		// the model's HMAC values cannot be forced natively: search real indices for a witness of the same obligation
+		seed := bytes.Repeat([]byte{0x42}, 32)
+		h := hmac.New(sha512.New, []byte("Bitcoin seed"))
+		h.Write(seed)
+		lr := h.Sum(nil)
+		master := NewExtendedKey([]byte{0x04, 0x88, 0xad, 0xe4}, lr[:32], lr[32:], []byte{0, 0, 0, 0}, 0, 0, true)
+		pub, err := master.Neuter()
+		if err != nil {
+			// version bytes unknown to Neuter: build the public parent directly
+			x, y := pocec.S256().ScalarBaseMult(lr[:32])
+			pk := pocec.PublicKey{Curve: pocec.S256(), X: x, Y: y}
+			pub = NewExtendedKey([]byte{0x04, 0x88, 0xb2, 0x1e}, pk.SerializeCompressed(), lr[32:], []byte{0, 0, 0, 0}, 0, 0, false)
+		}
+		for i := uint32(0); i < 6000; i++ {
+			cp, e1 := master.Child(i)
+			cq, e2 := pub.Child(i)
+			if (e1 == nil) != (e2 == nil) {
+				fmt.Printf("VSREPLAY-CONFIRMED: index %d: private derivation err=%v, public derivation err=%v\n", i, e1, e2)
+				return
+			}
+			if e1 != nil {
+				continue
+			}
+			if !bytes.Equal(cp.pubKeyBytes(), cq.key) || !bytes.Equal(cp.chainCode, cq.chainCode) {
+				fmt.Printf("VSREPLAY-CONFIRMED: index %d: Neuter(CKDpriv) = %x but CKDpub = %x\n", i, cp.pubKeyBytes(), cq.key)
+				return
+			}
+		}
+		fmt.Println("VSREPLAY-NOT-REPRODUCED: 6000 indices derived consistently from the public and the private parent")
 	default:
 		fmt.Println("VSREPLAY-NOT-REPRODUCED: no native oracle for harness", m.Harness)
 	}
